@@ -356,7 +356,105 @@ PY_DURATIONS = [   # text -> (years, months, microseconds of the rest) | None = 
     ("PT0.25M", (0, 0, 15 * 10**6)), ("P2DT0.1S", (0, 0, 2 * 86400 * 10**6 + 100000)),
     ("P1.5Y", None), ("P1,5Y", None), ("P1.5M", None), ("P1Y1,5M", None), ("PT1.5H30M", None), ("PT1,5H30M", None), ("P1.5DT1H", None), ("PT1.5M1S", None),
     ("P1W1D", None), ("P1WT1H", None), ("PT1M1H", None), ("P1D1Y", None), ("P1S", None), ("1D", None), ("PT1H1H", None),
+    # every designator repeated, with and without a value, and every adjacent pair out of order
+    ("P1Y1Y", None), ("P1M1M", None), ("P1D1D", None), ("PT5M5M", None), ("PT1S1S", None), ("P1W1W", None), ("P0Y0Y", None), ("P0M0M", None), ("P0D0D", None), ("PT0H0H", None),
+    ("PT0M0M", None), ("PT0S0S", None), ("P1M1Y", None), ("P1D1M", None), ("PT1S1M", None), ("PT1S1H", None), ("PT0S5M", None), ("PT0M5H", None), ("P0D5M", None), ("P0M5Y", None),
+    ("PT1H5M5M", None), ("PT5M10M30S", None), ("P1Y2M3D", (1, 2, 3 * 86400 * 10**6)), ("PT4H5M6S", (0, 0, (4 * 3600 + 5 * 60 + 6) * 10**6)), ("P1YT1S", (1, 0, 10**6)), ("P1MT1M", (0, 1, 60 * 10**6)),
 ]
+
+
+def _duration_table(ctx) -> list:
+    """the strings of PYDUR.tabulated / RSDUR.tabulated with the value each denotes (None: must be refused)"""
+    table = list(PY_DURATIONS)
+    if ctx.tier == "thorough":
+        # generated: every subset of designators with small values, the smallest one given with '.' / ',' fractions of 1-9 digits
+        from fractions import Fraction as Fr
+        units = [("Y", None), ("M", None), ("D", 86400), ("H", 3600), ("M", 60), ("S", 1)]
+        vals = (0, 1, 7, 59)
+        fracs = ("5", "25", "125", "000001", "999999", "1234567", "999999949", "000000501")
+        for mask in range(1, 64):
+            for v in vals:
+                parts_d, parts_t, y, mo, rest = "", "", 0, 0, Fr(0)
+                present = [i for i in range(6) if mask >> i & 1]
+                for i in present:
+                    letter, secs = units[i]
+                    txt = f"{v + i}{letter}"
+                    if i < 3:
+                        parts_d += txt
+                    else:
+                        parts_t += txt
+                    if i == 0:
+                        y = v + i
+                    elif i == 1:
+                        mo = v + i
+                    else:
+                        rest += (v + i) * secs
+                text = "P" + parts_d + ("T" + parts_t if parts_t else "")
+                table.append((text, (y, mo, int(rest * 10**6))))
+                last = present[-1]
+                if last >= 2 and v == 1:
+                    for fr in fracs:
+                        for sep in ".,":
+                            letter, secs = units[last]
+                            t2 = text[:-1] + sep + fr + letter
+                            exact = rest + Fr(int(fr), 10**len(fr)) * secs
+                            us_ = exact * 10**6
+                            if abs((us_ % 1) - Fr(1, 2)) < Fr(1, 1000):
+                                continue        # too close to a tie for a float computation: not a reference value
+                            table.append((t2, (y, mo, round(us_))))
+    return table
+
+
+def _rs_duration_tabulate(ctx) -> None:
+    """RSDUR.tabulated: the compiled duration parser decided on values: the MIR of python::parsing::parse_iso8601 and of what it reaches
+    (Parser::parse_duration, parse_duration_number(_frac), add_duration_value, the carry of a fraction into the smaller units) is
+    evaluated by the checker's MIR evaluator (pvs/mirexec.py; f64 arithmetic is the host's IEEE double, trunc / round as in Rust) on the
+    table of PYDUR.tabulated.  Accepted strings must yield the given years and months and a rest equal to the exact value in
+    microseconds; refused ones an Err (the binding's ValueError)."""
+    from .. import mirexec, mirsym
+    from . import C07
+    rel = "rust/src/parsing.rs"
+    try:
+        mir = mirfront.load()
+    except mirfront.MirUnavailable:
+        return
+    bad, n = [], 0
+    try:
+        sf = mirsym.struct_fields_from_source((core.REPO / rel).read_text())
+        f = mir.fn("parse_iso8601")
+        ext = C07.pyo3_models()
+        for text, want in _duration_table(ctx):
+            M = mirexec.Machine(mir, sf)
+            M.ext = ext
+            n += 1
+            try:
+                r = M.run(f, [mirexec.Opaque(), text])
+            except mirexec.Panic as e:
+                bad.append(f"{text!r}: the compiled parser panics ({e})")
+                continue
+            if not isinstance(r, mirexec.Enum) or r.variant not in ("Ok", "Err"):
+                raise core.Unsupported(f"result {r!r}")
+            if r.variant == "Err":
+                if want is not None:
+                    bad.append(f"{text!r} is refused; it denotes years={want[0]} months={want[1]} and {want[2]} microseconds")
+                continue
+            d = r.payload[0]
+            if want is None:
+                bad.append(f"{text!r} is accepted; it must be refused")
+                continue
+            if not isinstance(d, mirexec.Struct) or "microseconds" not in d.names:
+                bad.append(f"{text!r} is read as {d!r}, not as a duration")
+                continue
+            us = (((d.get("weeks") * 7 + d.get("days")) * 24 + d.get("hours")) * 60 + d.get("minutes")) * 60 * 10**6 + d.get("seconds") * 10**6 + d.get("microseconds")
+            if (d.get("years"), d.get("months"), us) != want:
+                bad.append(f"{text!r} -> years={d.get('years')} months={d.get('months')} and {us} microseconds (expected {want[0]}, {want[1]}, {want[2]})")
+    except (core.Unsupported, core.AnchorMissing, KeyError, TypeError, AttributeError, IndexError, ValueError, RecursionError) as e:
+        ctx.unverified("RSDUR.tabulated", "rs:parse_duration", f"outside the MIR evaluator: {type(e).__name__}: {str(e)[:200]}", rel)
+        return
+    ctx.ob("RSDUR.tabulated", "rs:parse_duration", not bad, f"{n} duration strings evaluated on the MIR of the compiled parser: " + ("; ".join(bad[:3]) if bad else
+           "every accepted string yields its exact value, every malformed one is refused"), rel)
+    if not bad:
+        ctx.established(("FRACTION-SCALE", "FRACTION.round", "FRACTION.last-only", "ORDER", "ARITH"), "rs:", "RSDUR.tabulated")
 
 
 def _py_duration_tabulate(ctx) -> None:
@@ -375,43 +473,7 @@ def _py_duration_tabulate(ctx) -> None:
         pat = re.compile(core.const("parsing.iso8601", "ISO8601_DURATION"), re.VERBOSE)
         consts = minieval.module_consts(m)
         bad, n = [], 0
-        table = list(PY_DURATIONS)
-        if ctx.tier == "thorough":
-            # generated: every subset of designators with small values, the smallest one given with '.' / ',' fractions of 1-9 digits
-            from fractions import Fraction as Fr
-            units = [("Y", None), ("M", None), ("D", 86400), ("H", 3600), ("M", 60), ("S", 1)]
-            vals = (0, 1, 7, 59)
-            fracs = ("5", "25", "125", "000001", "999999", "1234567", "999999949", "000000501")
-            for mask in range(1, 64):
-                for v in vals:
-                    parts_d, parts_t, y, mo, rest = "", "", 0, 0, Fr(0)
-                    present = [i for i in range(6) if mask >> i & 1]
-                    for i in present:
-                        letter, secs = units[i]
-                        txt = f"{v + i}{letter}"
-                        if i < 3:
-                            parts_d += txt
-                        else:
-                            parts_t += txt
-                        if i == 0:
-                            y = v + i
-                        elif i == 1:
-                            mo = v + i
-                        else:
-                            rest += (v + i) * secs
-                    text = "P" + parts_d + ("T" + parts_t if parts_t else "")
-                    table.append((text, (y, mo, int(rest * 10**6))))
-                    last = present[-1]
-                    if last >= 2 and v == 1:
-                        for fr in fracs:
-                            for sep in ".,":
-                                letter, secs = units[last]
-                                t2 = text[:-1] + sep + fr + letter
-                                exact = rest + Fr(int(fr), 10**len(fr)) * secs
-                                us_ = exact * 10**6
-                                if abs((us_ % 1) - Fr(1, 2)) < Fr(1, 1000):
-                                    continue        # too close to a tie for a float computation: not a reference value
-                                table.append((t2, (y, mo, round(us_))))
+        table = _duration_table(ctx)
         for text, want in table:
             glob = {**consts, "ISO8601_DURATION": pat, "ParserError": ValueError, "ValueError": ValueError,
                     "Duration": minieval.ClassStub(_new=lambda *a, **k: minieval.Stub(_args=a, _kws=k), _isa=lambda v: False)}
@@ -649,6 +711,7 @@ def _interval_attrs(ctx, m, fn) -> None:
 def run(ctx) -> None:
     ctx.explanation = EXPLANATION
     ctx.step(_py_duration_tabulate, ctx)
+    ctx.step(_rs_duration_tabulate, ctx)
     ctx.step(_fraction_scale, ctx)
     ctx.step(_rust_arith, ctx)
     ctx.step(_rust_fraction_radix, ctx)
